@@ -379,6 +379,49 @@ def run_update2(res):
                         R.add_violation(res, "update2|base=%r first=%s second=%r" % (base, fname, p2c), "a second update changes something its patch does not mention: " + why,
                                         {"op": "update2"}, None)
     R.add_sub(res, "two-step update histories with shared patch objects", n)
+    # ---- the same for dict-valued keys: one fragment object used under one or two keys and on two targets
+    dbases = [{}, {"m": {"a": 1}}, {"m": {"a": 1}, "n": {"b": 2}}, {"a": 1}]
+    dfirsts = [("new dict key", lambda s: {"m": s}), ("one fragment under two keys", lambda s: {"m": s, "n": s}),
+               ("fragment nested", lambda s: {"m": {"a": s}}), ("fragment in a list and under a key", lambda s: {"m": s, "l": [s]})]
+    frags = [{"b": 7}, {"b": 7, "c": {"d": 1}}, {"k": [None]}]
+    dseconds = [{"m": {"b": 8}}, {"m": {"b": "__delete__"}}, {"n": {"z": 1}}, {"m": {"a": {"b": 9}}}, {"m": {"c": {"d": 2}}}, {"l": [{"b": 5}]}]
+    m = 0
+    for bi, base in enumerate(dbases):
+        for fname, fmk in dfirsts:
+            for fi, frag in enumerate(frags):
+                if frag == {"k": [None]}:
+                    continue        # a None placeholder beyond the original list is unspecified (see ASSUMPTIONS)
+                for si, p2 in enumerate(dseconds):
+                    for mapfile in (False, True):
+                        p1 = fmk(copy.deepcopy(frag))
+                        if not compatible(base, p1):
+                            continue
+                        r1 = ref_update(copy.deepcopy(base), copy.deepcopy(p1))
+                        r2 = ref_update(copy.deepcopy(base), copy.deepcopy(p1))
+                        if not compatible(r1, p2):
+                            continue
+                        p1_before = copy.deepcopy(p1)
+                        t1, t2 = mk(base, mapfile), mk(base, mapfile)
+                        res["evals"] += 1
+                        m += 1
+                        try:
+                            mappyfile.update(t1, p1)
+                            mappyfile.update(t2, p1)
+                            mappyfile.update(t1, mk(p2, False))
+                            ref_update(r1, copy.deepcopy(p2))
+                            ok = D.typed(D.plain(t1)) == D.typed(r1) and D.typed(D.plain(t2)) == D.typed(r2)
+                            why = "after update(t1,p1); update(t2,p1); update(t1,p2) with p1=%r: t1=%r (reference %r), t2=%r (reference %r)" % (
+                                p1_before, D.plain(t1), r1, D.plain(t2), r2)
+                        except Exception as e:
+                            ok, why = False, "raised %s: %s" % (type(e).__name__, e)
+                        if ok:
+                            R.add_outcome(res, "agrees")
+                            res["states"].add(R.h64(("u2d", bi, fname, fi, si, mapfile)))
+                        else:
+                            R.add_outcome(res, "differs")
+                            R.add_violation(res, "update2|base=%r first=%s frag=%r second=%r" % (base, fname, frag, p2),
+                                            "a second update changes something its patch does not mention: " + why, {"op": "update2"}, None)
+    R.add_sub(res, "two-step update histories with a shared dict fragment", m)
 
 
 def run_findunique_numbers(res):
